@@ -158,6 +158,7 @@ package scheduler
 //@   modifies *
 //@   ensures #unchanged-runner s.taskRunner == old(s.taskRunner)
 //@   ensures #C03.quiescent s.cancelled == 1 || (forall n string :: n in g.nodes ==> terminal(g.nodes[n]))
+//@   ensures #C12.returns-only-after-its-stage-goroutines calls(Wait) == 1 // cancelled or not, Schedule waits for every stage goroutine it started before it reports the result
 //@   loop 1 "!s.isDone(g)"
 //@     invariant #C04.spawn-all readyCount - old(readyCount) == spawnCount - old(spawnCount)
 //@     invariant #same s == s0 && g == g0 && s != nil && s.taskRunner != nil && wfS(g) && depsAre(g) && hasWork(g) && nestedSchedulable(g)
